@@ -469,8 +469,8 @@ func (c *Ctx) JSONCustomCodec() []core.Ob {
 			obs = append(obs, o)
 		}
 	}
-	if n < 4 {
-		obs = append(obs, core.Ob{Rule: "R-MARSHALER", Key: "json:count", Status: core.Violated, Armed: true, Want: ">= 4 json calls on chat types", Got: fmt.Sprint(n)})
+	if n < 2 {
+		obs = append(obs, core.Ob{Rule: "R-MARSHALER", Key: "json:count", Status: core.Violated, Armed: true, Want: ">= 2 json calls on chat types", Got: fmt.Sprint(n)})
 	}
 	return obs
 }
@@ -481,7 +481,7 @@ func (c *Ctx) TranslateArgTypes() []core.Ob {
 	var obs []core.Ob
 	n := 0
 	for _, fn := range c.Funcs() {
-		if !inPkgs(fn, "chat") || !strings.Contains(core.FnName(fn), "TranslateArgs") {
+		if !inPkgs(fn, "chat") {
 			continue
 		}
 		for _, b := range fn.Blocks {
@@ -492,6 +492,10 @@ func (c *Ctx) TranslateArgTypes() []core.Ob {
 				}
 				bi, ok := call.Common().Value.(*ssa.Builtin)
 				if !ok || bi.Name() != "append" || len(call.Common().Args) != 2 {
+					continue
+				}
+				// appends to a TranslateArgs value (in its decoders or in helpers they call)
+				if nt, ok := types.Unalias(call.Type()).(*types.Named); !ok || nt.Obj().Name() != "TranslateArgs" {
 					continue
 				}
 				// the appended variadic slice: elements boxed into any
@@ -512,8 +516,8 @@ func (c *Ctx) TranslateArgTypes() []core.Ob {
 			}
 		}
 	}
-	if n < 4 {
-		obs = append(obs, core.Ob{Rule: "T-ARGKIND", Key: "count", Status: core.Violated, Armed: true, Want: ">= 4 appends to TranslateArgs in the decoders", Got: fmt.Sprint(n)})
+	if n < 2 {
+		obs = append(obs, core.Ob{Rule: "T-ARGKIND", Key: "count", Status: core.Violated, Armed: true, Want: ">= 2 appends to TranslateArgs in the decoders (messages and numbers)", Got: fmt.Sprint(n)})
 	}
 	return obs
 }
@@ -552,31 +556,61 @@ func (c *Ctx) OfflineUUIDInputs() []core.Ob {
 		return []core.Ob{o}
 	}
 	o.Pos, o.Func = c.P.Pos(fn.Pos()), core.FnName(fn)
-	var args []ssa.Value
-	for _, ci := range callsIn(fn, func(n string, cc *ssa.CallCommon) bool { return cc.IsInvoke() && cc.Method.Name() == "Write" }) {
-		args = append(args, ci.Common().Args[0])
-	}
-	prefixOK, nameOK := false, false
-	for _, a := range args {
-		cv, ok := a.(*ssa.Convert)
-		if !ok {
-			continue
-		}
-		if k, ok := cv.X.(*ssa.Const); ok && k.Value != nil && k.Value.Kind() == constant.String && constant.StringVal(k.Value) == "OfflinePlayer:" {
-			prefixOK = true
-		}
-		if cv.X == ssa.Value(fn.Params[0]) {
-			nameOK = true
-		}
-		// "OfflinePlayer:" + name
-		if bo, ok := cv.X.(*ssa.BinOp); ok && bo.Op == token.ADD {
-			if k, ok := bo.X.(*ssa.Const); ok && k.Value != nil && k.Value.Kind() == constant.String && constant.StringVal(k.Value) == "OfflinePlayer:" && bo.Y == ssa.Value(fn.Params[0]) {
-				prefixOK, nameOK = true, true
+	// everything the digest is fed, in order: hash.Write(b), io.WriteString(h, s), md5.Sum(b)
+	var fed []ssa.Value
+	for _, b := range fn.Blocks {
+		for _, in := range b.Instrs {
+			ci, ok := in.(ssa.CallInstruction)
+			if !ok {
+				continue
+			}
+			cc := ci.Common()
+			switch n := calleeName(cc); {
+			case cc.IsInvoke() && (cc.Method.Name() == "Write" || cc.Method.Name() == "WriteString") && len(cc.Args) == 1:
+				fed = append(fed, cc.Args[0])
+			case n == "io.WriteString" && len(cc.Args) == 2:
+				fed = append(fed, cc.Args[1])
+			case n == "crypto/md5.Sum" && len(cc.Args) == 1:
+				fed = append(fed, cc.Args[0])
 			}
 		}
 	}
+	// flatten conversions and string concatenations into their leaves
+	var leaves []ssa.Value
+	var flat func(v ssa.Value, d int)
+	flat = func(v ssa.Value, d int) {
+		if d > 6 {
+			leaves = append(leaves, v)
+			return
+		}
+		switch x := v.(type) {
+		case *ssa.Convert:
+			flat(x.X, d+1)
+		case *ssa.ChangeType:
+			flat(x.X, d+1)
+		case *ssa.BinOp:
+			if x.Op == token.ADD {
+				flat(x.X, d+1)
+				flat(x.Y, d+1)
+				return
+			}
+			leaves = append(leaves, v)
+		default:
+			leaves = append(leaves, v)
+		}
+	}
+	for _, a := range fed {
+		flat(a, 0)
+	}
+	prefixOK, nameOK := false, false
+	if len(leaves) == 2 {
+		if k, ok := leaves[0].(*ssa.Const); ok && k.Value != nil && k.Value.Kind() == constant.String && constant.StringVal(k.Value) == "OfflinePlayer:" {
+			prefixOK = true
+		}
+		nameOK = leaves[1] == ssa.Value(fn.Params[0])
+	}
 	if !prefixOK || !nameOK {
-		o.Status, o.Got = core.Violated, fmt.Sprintf("prefix hashed=%v, whole name hashed=%v", prefixOK, nameOK)
+		o.Status, o.Got = core.Violated, fmt.Sprintf("the digest input is not exactly \"OfflinePlayer:\" followed by the name (%d pieces; prefix=%v, whole name=%v)", len(leaves), prefixOK, nameOK)
 	}
 	// version / variant bits: known-bits of the values stored into id[6] and id[8]
 	v := core.Ob{Rule: "T-UUIDV3", Key: "offline:version-and-variant-bits", Armed: true, Status: core.OK, Pos: o.Pos, Func: o.Func,
@@ -665,6 +699,18 @@ func (c *Ctx) SignatureHashOrder() []core.Ob {
 		return []core.Ob{o}
 	}
 	o.Pos, o.Func = c.P.Pos(fn.Pos()), core.FnName(fn)
+	// the roles are read off the data flow: the encoder is what base64.NewEncoder returns, the
+	// line breaker is the writer it was given, the hash is what Sum is called on
+	var encoder, breaker ssa.Value
+	for _, ci := range callsIn(fn, func(n string, _ *ssa.CallCommon) bool { return n == "encoding/base64.NewEncoder" }) {
+		if v, ok := ci.(ssa.Value); ok && len(ci.Common().Args) == 2 {
+			encoder = v
+			breaker = ci.Common().Args[1]
+			if mi, ok := breaker.(*ssa.MakeInterface); ok {
+				breaker = mi.X
+			}
+		}
+	}
 	var encClose, brkClose, sum ssa.Instruction
 	for _, b := range fn.Blocks {
 		for _, in := range b.Instrs {
@@ -672,13 +718,15 @@ func (c *Ctx) SignatureHashOrder() []core.Ob {
 			if !ok {
 				continue
 			}
-			n := calleeName(ci.Common())
+			cc := ci.Common()
 			switch {
-			case ci.Common().IsInvoke() && ci.Common().Method.Name() == "Close":
+			case cc.IsInvoke() && cc.Method.Name() == "Close" && encoder != nil && cc.Value == encoder:
 				encClose = in
-			case strings.HasSuffix(n, "user.(lineBreaker).Close"):
+			case !cc.IsInvoke() && cc.StaticCallee() != nil && cc.StaticCallee().Name() == "Close" && len(cc.Args) > 0 && breaker != nil && cc.Args[0] == breaker:
 				brkClose = in
-			case ci.Common().IsInvoke() && ci.Common().Method.Name() == "Sum":
+			case cc.IsInvoke() && cc.Method.Name() == "Close" && breaker != nil && stripIface(cc.Value) == breaker:
+				brkClose = in
+			case cc.IsInvoke() && cc.Method.Name() == "Sum":
 				sum = in
 			}
 		}
@@ -703,17 +751,16 @@ func (c *Ctx) SignatureHashOrder() []core.Ob {
 // ReceiveBufferPerPacket: the bot's reader goroutine takes a fresh buffer from
 // the pool for every packet it pushes into the receive queue.
 func (c *Ctx) ReceiveBufferPerPacket() []core.Ob {
-	fn := c.Fn("bot.warpConn")
-	o := core.Ob{Rule: "R-POOL", Key: "bot.warpConn:buffer-per-packet", Armed: true, Status: core.OK,
+	o := core.Ob{Rule: "R-POOL", Key: "bot:receive-loop:buffer-per-packet", Armed: true, Status: core.OK,
 		Want: "every packet pushed into the receive queue owns a buffer taken from the pool in the same loop iteration (queued packets never share a backing array)"}
-	if fn == nil {
-		o.Status, o.Got = core.Violated, "bot.warpConn not found"
-		return []core.Ob{o}
-	}
-	o.Pos, o.Func = c.P.Pos(fn.Pos()), core.FnName(fn)
+	// the receive loop: the function (goroutine body or method) of package bot that reads packets
+	// from the network connection and pushes them into a queue - found by what it calls, not by name
 	found := false
-	for _, cl := range fn.AnonFuncs {
-		var get, push ssa.Instruction
+	for _, cl := range c.Funcs() {
+		if !inPkgs(cl, "bot") {
+			continue
+		}
+		var get, push, read ssa.Instruction
 		for _, b := range cl.Blocks {
 			for _, in := range b.Instrs {
 				ci, ok := in.(ssa.CallInstruction)
@@ -724,15 +771,19 @@ func (c *Ctx) ReceiveBufferPerPacket() []core.Ob {
 				if n == "sync.(Pool).Get" {
 					get = in
 				}
+				if strings.HasSuffix(n, "/net.(Conn).ReadPacket") {
+					read = in
+				}
 				if ci.Common().IsInvoke() && ci.Common().Method.Name() == "Push" {
 					push = in
 				}
 			}
 		}
-		if push == nil {
+		if push == nil || read == nil {
 			continue
 		}
 		found = true
+		o.Pos, o.Func = c.P.Pos(cl.Pos()), core.FnName(cl)
 		if get == nil {
 			o.Status, o.Got = core.Violated, "the reader goroutine pushes packets without taking a buffer from the pool"
 			continue
@@ -749,7 +800,7 @@ func (c *Ctx) ReceiveBufferPerPacket() []core.Ob {
 		}
 	}
 	if !found {
-		o.Status, o.Got = core.Violated, "no reader goroutine pushing into the queue found"
+		o.Status, o.Got = core.Violated, "no function of package bot reads packets from the connection and pushes them into a queue"
 	}
 	return []core.Ob{o}
 }
